@@ -64,7 +64,8 @@ class SquareRootScale(mscale.ScaleBase):
 
         def transform_non_affine(self, a):
             """Square everything."""
-            return np.array(a) ** 2
+            # in double precision: an integer array squares in its own type (int32 wraps above 46 340)
+            return np.array(a, dtype=np.float64) ** 2
 
         def inverted(self):
             """Square root it. (Inverse of inverse)."""
